@@ -187,6 +187,7 @@ func threadRun(L *LState) {
 			if parent := L.Parent; parent != nil {
 				L.closeUpvalues(0)
 				if L.wrapped {
+					L.SetTop(0)
 					L.Push(lv)
 					L.G.CurrentThread = parent
 					L.Parent = nil
